@@ -1,4 +1,5 @@
 import HexProofs.Writes.Twin
+import HexProofs.Writes.PropsLib
 import HexProofs.Framework.Gen.Maintain
 import HexProofs.Framework.Gen.AllX
 import HexProofs.Lib.IntInst
@@ -745,4 +746,377 @@ theorem presence_late (M : MgrSpec F) (tf₁ tf₂ : Option String) (init : List
   · exact (a6.agreeOff.core_eq).trans (b6.agreeOff.core_eq).symm
   · exact (a6.agreeOff.storedUnder_eq (hok₁.names k hk)).symm.trans (b6.agreeOff.storedUnder_eq (hok₂.names k hk))
 
+/-! ### every shipped class, any Hexital-level timeframe, gap filling off or on -/
+
+/-- **`presence_late` for the 27 shipped classes** (`CoveredTreeX`), Hexital configuration
+`{ tf := tfs, fill := fill && tfs.isSome }`, streams that are stamped / sorted / raw (`RawTf`; for the base
+timeframe only `Plain` is used). -/
+theorem presence_late_covered (tfs : Option Int) (htfs : ∀ t, tfs = some t → 0 < t) (fill : Bool)
+    (tf₁ tf₂ : Option String) (init : List (Candle F)) (ms₁ ms₂ : List (Member F))
+    (a : Member F) (k : Kind F) (name : String) (round : Nat) (hk : CoveredTreeX name k)
+    (ha : a.tree = mkTop k name round) (hatf : a.tfName = none)
+    (N₁ N₂ : List String) (ops₁ ops₂ : List (TwinOp F)) (H₁ H₂ : Hexital F)
+    (hms₁ : ∀ m, m ∈ Hexital.dedupe ms₁ → m = a ∨ (m.tree.name ≠ a.tree.name ∧ ∀ k, k ∈ m.tree.allNames → k ∈ N₁))
+    (hms₂ : ∀ m, m ∈ Hexital.dedupe ms₂ → m = a ∨ (m.tree.name ≠ a.tree.name ∧ ∀ k, k ∈ m.tree.allNames → k ∈ N₂))
+    (hok₁ : TreeOK N₁ a.tree) (hok₂ : TreeOK N₂ a.tree)
+    (hops₁ : ∀ op, op ∈ ops₁ → op.LateOK N₁ a) (hops₂ : ∀ op, op ∈ ops₂ → op.LateOK N₂ a)
+    (hsame : (TwinOp.chunks ops₁).flatten = (TwinOp.chunks ops₂).flatten)
+    (hraw : RawTf (init ++ (TwinOp.chunks ops₁).flatten))
+    (hr₁ : runHexital { tf := tfs, fill := fill && tfs.isSome } tf₁ init ms₁ (ops₁ ++ [.calculate none]) = .ok H₁)
+    (hr₂ : runHexital { tf := tfs, fill := fill && tfs.isSome } tf₂ init ms₂ (ops₂ ++ [.calculate none]) = .ok H₂)
+    (hreg₁ : ∃ hi, dlookup a.tree.name H₁.indicators = some hi)
+    (hreg₂ : ∃ hi, dlookup a.tree.name H₂.indicators = some hi) :
+    ∀ nm, (splitDot nm).headD "" = a.tree.name → readOK N₁ nm = true → readOK N₂ nm = true →
+      H₁.readingAsList nm = H₂.readingAsList nm := by
+  obtain ⟨T, _⟩ := hk.spec round
+  have T' : TreeSpec a.tree := ha ▸ T
+  have hcfg := mgrSpecOf_cfg (F := F) tfs htfs fill
+  rw [← hcfg] at hr₁ hr₂
+  exact (presence_late (mgrSpecOf F tfs htfs fill) tf₁ tf₂ init ms₁ ms₂ a N₁ N₂ ops₁ ops₂ H₁ H₂ T' hatf hms₁ hms₂
+    hok₁ hok₂ hops₁ hops₂ hsame (mgrSpecOf_ok tfs htfs fill _ hraw) hr₁ hr₂ hreg₁ hreg₂).1
+
+/-! ### the statement of `C13.presence_FULL`, and why it is false as it stands -/
+
+/-- verbatim copy of `Hex.C13.presence_FULL` (HexProps/C13.lean; this module cannot import the property file) -/
+def PresenceFULL : Prop :=
+  ∀ {F : Type} [PyF F] (cfg : MgrCfg) (tf : Option String) (init : List (Candle F)) (ms₁ ms₂ : List (Member F))
+    (a : Member F) (N₁ N₂ : List String) (ops₁ ops₂ : List (TwinOp F)) (H₁ H₂ : Hexital F),
+    (∀ m, m ∈ Hexital.dedupe ms₁ → m.tree.name ≠ a.tree.name → ∀ k, k ∈ m.tree.allNames → k ∈ N₁) →
+    (∀ m, m ∈ Hexital.dedupe ms₂ → m.tree.name ≠ a.tree.name → ∀ k, k ∈ m.tree.allNames → k ∈ N₂) →
+    TreeOK N₁ a.tree → TreeOK N₂ a.tree →
+    (∀ op, op ∈ ops₁ → match op with
+      | .add ms => ∀ m, m ∈ Hexital.dedupe ms → m = a ∨ (m.tree.name ≠ a.tree.name ∧ ∀ k, k ∈ m.tree.allNames → k ∈ N₁)
+      | .remove (some b) => b ≠ a.tree.name
+      | _ => True) →
+    (∀ op, op ∈ ops₂ → match op with
+      | .add ms => ∀ m, m ∈ Hexital.dedupe ms → m = a ∨ (m.tree.name ≠ a.tree.name ∧ ∀ k, k ∈ m.tree.allNames → k ∈ N₂)
+      | .remove (some b) => b ≠ a.tree.name
+      | _ => True) →
+    ops₁.filterMap (fun op => match op with | .append new => some new | _ => none)
+      = ops₂.filterMap (fun op => match op with | .append new => some new | _ => none) →
+    runHexital cfg tf init ms₁ (ops₁ ++ [.calculate none]) = .ok H₁ →
+    runHexital cfg tf init ms₂ (ops₂ ++ [.calculate none]) = .ok H₂ →
+    (∃ hi, dlookup a.tree.name H₁.indicators = some hi ∧ hi.tree = a.tree) →
+    (∃ hi, dlookup a.tree.name H₂.indicators = some hi ∧ hi.tree = a.tree) →
+    ∀ name, (splitDot name).headD "" = a.tree.name → readOK N₁ name = true → readOK N₂ name = true →
+      H₁.readingAsList name = H₂.readingAsList name
+
+section Witness
+
+def lateCandle (c : Int) : Candle Int :=
+  { o := .int c, h := .int (c + 2), l := .int (c - 1), c := .int (c + 1), v := .int 10 }
+
+def lateCandles : List (Candle Int) :=
+  [lateCandle 10, lateCandle 12, lateCandle 11, lateCandle 15, lateCandle 14, lateCandle 13]
+
+/-- `EMA(period=2)` -/
+def lateE : Member Int := { tree := mkTop (.ema 2 "close" (.int 2)) "EMA_2" 4, tfName := none, tfSecs := none }
+
+/-- the number in a reading (toy carrier) -/
+def valInt : Val Int → Option Int
+  | .s (.num (.flt x)) => some x
+  | .s (.num (.int x)) => some x
+  | _ => none
+
+/-- the column `reading_as_list(name)` of a run, as numbers -/
+def columnOf (r : PyM (Hexital Int)) (name : String) : Option (List (Option Int)) :=
+  match r with
+  | .ok h => match h.readingAsList name with
+    | .ok l => some (l.map valInt)
+    | .error _ => none
+  | .error _ => none
+
+theorem columnOf_ok {r : PyM (Hexital Int)} {H : Hexital Int} (h : r = .ok H) (name : String) :
+    columnOf r name = match H.readingAsList name with
+      | .ok l => some (l.map valInt)
+      | .error _ => none := by
+  subst h; rfl
+
+theorem exists_of_isOk {α : Type} {r : PyM α} (h : isOk r = true) : ∃ x, r = .ok x := by
+  cases r with
+  | ok x => exact ⟨x, rfl⟩
+  | error e => simp [isOk] at h
+
+omit [PyF F] in
+theorem readOK_nil (name : String) : readOK [] name = true := by
+  unfold readOK
+  split <;> simp
+
+omit [PyF F] in
+theorem treeOK_nil (t : Ind F) : TreeOK [] t :=
+  ⟨fun _ _ h => by simp at h, fun r _ => readOK_nil r⟩
+
+/-- world 1: `calculate_index("EMA_2", 3)` before the closing `calculate()`; world 2: nothing -/
+def lateOps₁ : List (TwinOp Int) := [.calculateIndex (some "EMA_2") 3]
+
+theorem witness_columns :
+    isOk (runHexital {} none lateCandles [lateE] (lateOps₁ ++ [.calculate none])) = true ∧
+    isOk (runHexital {} none lateCandles [lateE] ([] ++ [.calculate none])) = true ∧
+    columnOf (runHexital {} none lateCandles [lateE] (lateOps₁ ++ [.calculate none])) "EMA_2"
+      = some [none, some 12, some 12, some 14, some 14, some 14] ∧
+    columnOf (runHexital {} none lateCandles [lateE] ([] ++ [.calculate none])) "EMA_2"
+      = some [none, some 12, some 12, some 12, some 12, some 12] := by
+  decide +kernel
+
+/-- **`presence_FULL` is false as stated**: nothing ties the operations aimed at `a` itself in the two
+programs together (compare `hsame` of `C13.presence`).  Witness: one Hexital, one member `EMA_2` handed to the
+constructor in both worlds, no other member at all; world 1 calls `calculate_index("EMA_2", 3)` before the closing
+`calculate()`, world 2 does not.  `calculate()` resumes at the newest candle holding the key and skips non-`None`
+readings, so the out-of-order reading at index 3 (an EMA seeded with no predecessor) stays and feeds the later ones. -/
+theorem presence_FULL_counterexample : ¬ PresenceFULL := by
+  intro hfull
+  obtain ⟨ok₁, ok₂, col₁, col₂⟩ := witness_columns
+  obtain ⟨H₁, h₁⟩ := exists_of_isOk ok₁
+  obtain ⟨H₂, h₂⟩ := exists_of_isOk ok₂
+  have hmem : lateE ∈ Hexital.dedupe [lateE] := by simp [Hexital.dedupe, dset]
+  have hded : ∀ m, m ∈ Hexital.dedupe [lateE] → m = lateE := by
+    intro m hm; simpa [Hexital.dedupe, dset] using hm
+  have hoth : ∀ m, m ∈ Hexital.dedupe [lateE] → m.tree.name ≠ lateE.tree.name →
+      ∀ k, k ∈ m.tree.allNames → k ∈ ([] : List String) := by
+    intro m hm hne; exact absurd (by rw [hded m hm]) hne
+  have hsecs : ∀ m, m ∈ Hexital.dedupe [lateE] → m.tfName = lateE.tfName →
+      lateE.tfName.getD defaultKey ≠ defaultKey → m.tfSecs = lateE.tfSecs := by
+    intro m _ _ h; exact absurd rfl h
+  -- the member is registered with its tree at the end of both runs (`member_twin`)
+  have reg : ∀ (ops : List (TwinOp Int)) (H : Hexital Int),
+      (∀ op, op ∈ ops → op.OK [] lateE.tree.name) → runHexital {} none lateCandles [lateE] ops = .ok H →
+      ∃ hi, dlookup lateE.tree.name H.indicators = some hi ∧ hi.tree = lateE.tree := by
+    intro ops H hops hrun
+    obtain ⟨twin, _, ht, inv⟩ := member_twin (N := []) {} none lateCandles [lateE] lateE ops H hmem hsecs hoth
+      (treeOK_nil _) hops hrun
+    obtain ⟨hi, m, q1, q2, _⟩ := inv.observe
+    exact ⟨hi, q1, q2.trans ht⟩
+  have reg₁ := reg _ H₁ (by
+    intro op hop
+    simp only [lateOps₁, List.cons_append, List.nil_append, List.mem_cons, List.mem_nil_iff, or_false] at hop
+    rcases hop with rfl | rfl <;> trivial) h₁
+  have reg₂ := reg _ H₂ (by
+    intro op hop
+    simp only [List.nil_append, List.mem_cons, List.mem_nil_iff, or_false] at hop
+    subst hop; trivial) h₂
+  have := hfull (F := Int) {} none lateCandles [lateE] [lateE] lateE [] [] lateOps₁ [] H₁ H₂ hoth hoth
+    (treeOK_nil _) (treeOK_nil _)
+    (by
+      intro op hop
+      simp only [lateOps₁, List.mem_cons, List.mem_nil_iff, or_false] at hop
+      subst hop; trivial)
+    (by intro op hop; simp at hop)
+    (by simp [lateOps₁])
+    h₁ h₂ reg₁ reg₂ "EMA_2" (by decide +kernel) (readOK_nil _) (readOK_nil _)
+  rw [columnOf_ok h₁, this, ← columnOf_ok h₂, col₂] at col₁
+  revert col₁
+  decide
+
+end Witness
+
+/-! ### non-vacuity: concrete Hexitals (toy carrier `Int`) on which every hypothesis of `presence_late` holds -/
+
+section Examples
+
+/-- the late member: RSI with its managed `RSI_2_data` series -/
+def lateR : Member Int := { tree := mkTop (.rsi 2 "close") "RSI_2" 4, tfName := none, tfSecs := none }
+/-- the others: SMA, and a Keltner channel (five keys per candle) -/
+def lateS : Member Int := { tree := mkTop (.sma 2 "close") "SMA_2" 4, tfName := none, tfSecs := none }
+def lateK : Member Int := { tree := mkTop (.kc 2 "close" (.int 2)) "KC_2" 4, tfName := none, tfSecs := none }
+def lateN : List String := lateS.tree.allNames ++ lateK.tree.allNames
+
+/-- world 1: `RSI_2` handed to the constructor -/
+def lateW₁ : List (TwinOp Int) :=
+  [.calculate none, .append [lateCandle 16, lateCandle 12], .purge (some "SMA_2"), .recalculate (some "RSI_2"),
+   .append [lateCandle 18]]
+/-- world 2: `RSI_2` added by `add_indicator` after two appends, other chunking, another member comes and goes -/
+def lateW₂ : List (TwinOp Int) :=
+  [.calculate none, .append [lateCandle 16], .add [lateK], .append [lateCandle 12], .add [lateR],
+   .calculateIndex (some "SMA_2") 3, .append [lateCandle 18], .purge none, .remove (some "KC_2")]
+
+theorem lateR_covered : CoveredTreeX (F := Int) "RSI_2" (.rsi 2 "close") :=
+  .base _ (.rsi 2 "close" (by decide) ⟨by decide, by decide, by decide, by decide⟩ (by decide))
+
+theorem dedupe_RS : Hexital.dedupe [lateR, lateS] = [lateR, lateS] := by
+  simp [Hexital.dedupe, dset, lateR, lateS, mkTop, Ind.name]
+theorem dedupe_S : Hexital.dedupe [lateS] = [lateS] := by simp [Hexital.dedupe, dset]
+theorem dedupe_K : Hexital.dedupe [lateK] = [lateK] := by simp [Hexital.dedupe, dset]
+theorem dedupe_R : Hexital.dedupe [lateR] = [lateR] := by simp [Hexital.dedupe, dset]
+
+theorem lateS_other : lateS.tree.name ≠ lateR.tree.name ∧ ∀ k, k ∈ lateS.tree.allNames → k ∈ lateN := by
+  decide +kernel
+theorem lateK_other : lateK.tree.name ≠ lateR.tree.name ∧ ∀ k, k ∈ lateK.tree.allNames → k ∈ lateN := by
+  decide +kernel
+
+theorem lateW₁_ok : ∀ op, op ∈ lateW₁ → op.LateOK lateN lateR := by
+  intro op hop
+  simp only [lateW₁, List.mem_cons, List.mem_nil_iff, or_false] at hop
+  rcases hop with rfl | rfl | rfl | rfl | rfl <;> trivial
+
+theorem lateW₂_ok : ∀ op, op ∈ lateW₂ → op.LateOK lateN lateR := by
+  intro op hop
+  simp only [lateW₂, List.mem_cons, List.mem_nil_iff, or_false] at hop
+  rcases hop with rfl | rfl | rfl | rfl | rfl | rfl | rfl | rfl | rfl
+  · trivial
+  · trivial
+  · intro m hm; rw [dedupe_K] at hm; simp at hm; subst hm; exact Or.inr lateK_other
+  · trivial
+  · intro m hm; rw [dedupe_R] at hm; simp at hm; subst hm; exact Or.inl rfl
+  · exact ⟨by simp, by decide +kernel⟩
+  · trivial
+  · trivial
+  · show "KC_2" ≠ lateR.tree.name; decide +kernel
+
+example :
+    ∃ H₁ H₂, runHexital {} none lateCandles [lateR, lateS] (lateW₁ ++ [.calculate none]) = .ok H₁ ∧
+      runHexital {} none lateCandles [lateS] (lateW₂ ++ [.calculate none]) = .ok H₂ ∧
+      H₁.readingAsList "RSI_2" = H₂.readingAsList "RSI_2" ∧
+      columnOf (.ok H₁) "RSI_2" = some [none, none, some 100, some 100, some 100, some 100, some 100, some 0, some 75] := by
+  have hchk :
+      isOk (runHexital {} none lateCandles [lateR, lateS] (lateW₁ ++ [.calculate none])) = true ∧
+      isOk (runHexital {} none lateCandles [lateS] (lateW₂ ++ [.calculate none])) = true ∧
+      columnOf (runHexital {} none lateCandles [lateR, lateS] (lateW₁ ++ [.calculate none])) "RSI_2"
+        = some [none, none, some 100, some 100, some 100, some 100, some 100, some 0, some 75] ∧
+      (match runHexital {} none lateCandles [lateR, lateS] (lateW₁ ++ [.calculate none]) with
+        | .ok H => (dlookup "RSI_2" H.indicators).isSome | .error _ => false) = true ∧
+      (match runHexital {} none lateCandles [lateS] (lateW₂ ++ [.calculate none]) with
+        | .ok H => (dlookup "RSI_2" H.indicators).isSome | .error _ => false) = true := by
+    decide +kernel
+  obtain ⟨ok₁, ok₂, col, r₁, r₂⟩ := hchk
+  obtain ⟨H₁, h₁⟩ := exists_of_isOk ok₁
+  obtain ⟨H₂, h₂⟩ := exists_of_isOk ok₂
+  rw [h₁] at r₁ col
+  rw [h₂] at r₂
+  obtain ⟨T, _⟩ := lateR_covered.spec 4
+  refine ⟨H₁, H₂, h₁, h₂, ?_, col⟩
+  refine (presence_late (MgrSpec.base Int) none none lateCandles [lateR, lateS] [lateS] lateR lateN lateN
+    lateW₁ lateW₂ H₁ H₂ T rfl ?_ ?_ (treeOK_of_b (by decide +kernel)) (treeOK_of_b (by decide +kernel))
+    lateW₁_ok lateW₂_ok (by rfl)
+    (show ∀ c ∈ lateCandles ++ (TwinOp.chunks lateW₁).flatten, Plain c by decide +kernel) h₁ h₂ ?_ ?_).1 "RSI_2" (by decide +kernel)
+    (by decide +kernel) (by decide +kernel)
+  · intro m hm; rw [dedupe_RS] at hm; simp at hm
+    rcases hm with rfl | rfl
+    · exact Or.inl rfl
+    · exact Or.inr lateS_other
+  · intro m hm; rw [dedupe_S] at hm; simp at hm; subst hm; exact Or.inr lateS_other
+  · exact Option.isSome_iff_exists.1 r₁
+  · exact Option.isSome_iff_exists.1 r₂
+
+
+/-- the same on a Hexital with its own two-minute timeframe and gap filling: one-minute stamped candles -/
+def lateStamped (k : Nat) : Candle Int :=
+  { lateCandle (10 + (k : Int) * 7 % 5) with ts := some (60 * (k : Int) + 60) }
+def lateStream : List (Candle Int) := (List.range 6).map lateStamped
+def lateT₁ : List (TwinOp Int) :=
+  [.calculate none, .append [lateStamped 6, lateStamped 7], .purge (some "SMA_2"), .recalculate (some "RSI_2"),
+   .append [lateStamped 8, lateStamped 9]]
+def lateT₂ : List (TwinOp Int) :=
+  [.calculate none, .append [lateStamped 6], .add [lateK], .append [lateStamped 7, lateStamped 8], .add [lateR],
+   .calculateIndex (some "SMA_2") 1, .append [lateStamped 9], .purge none, .remove (some "KC_2")]
+
+theorem lateT₁_ok : ∀ op, op ∈ lateT₁ → op.LateOK lateN lateR := by
+  intro op hop
+  simp only [lateT₁, List.mem_cons, List.mem_nil_iff, or_false] at hop
+  rcases hop with rfl | rfl | rfl | rfl | rfl <;> trivial
+
+theorem lateT₂_ok : ∀ op, op ∈ lateT₂ → op.LateOK lateN lateR := by
+  intro op hop
+  simp only [lateT₂, List.mem_cons, List.mem_nil_iff, or_false] at hop
+  rcases hop with rfl | rfl | rfl | rfl | rfl | rfl | rfl | rfl | rfl
+  · trivial
+  · trivial
+  · intro m hm; rw [dedupe_K] at hm; simp at hm; subst hm; exact Or.inr lateK_other
+  · trivial
+  · intro m hm; rw [dedupe_R] at hm; simp at hm; subst hm; exact Or.inl rfl
+  · exact ⟨by simp, by decide +kernel⟩
+  · trivial
+  · trivial
+  · show "KC_2" ≠ lateR.tree.name; decide +kernel
+
+example :
+    ∃ H₁ H₂, runHexital { tf := some 120, fill := true && (some (120 : Int)).isSome } (some "T2") lateStream
+        [lateR, lateS] (lateT₁ ++ [.calculate none]) = .ok H₁ ∧
+      runHexital { tf := some 120, fill := true && (some (120 : Int)).isSome } (some "T2") lateStream
+        [lateS] (lateT₂ ++ [.calculate none]) = .ok H₂ ∧
+      H₁.readingAsList "RSI_2" = H₂.readingAsList "RSI_2" ∧
+      columnOf (.ok H₁) "RSI_2" = some [none, none, some 0, some 100, some 100] := by
+  have hchk :
+      isOk (runHexital { tf := some 120, fill := true && (some (120 : Int)).isSome } (some "T2") lateStream
+        [lateR, lateS] (lateT₁ ++ [.calculate none])) = true ∧
+      isOk (runHexital { tf := some 120, fill := true && (some (120 : Int)).isSome } (some "T2") lateStream
+        [lateS] (lateT₂ ++ [.calculate none])) = true ∧
+      columnOf (runHexital { tf := some 120, fill := true && (some (120 : Int)).isSome } (some "T2") lateStream
+        [lateR, lateS] (lateT₁ ++ [.calculate none])) "RSI_2" = some [none, none, some 0, some 100, some 100] ∧
+      (match runHexital { tf := some 120, fill := true && (some (120 : Int)).isSome } (some "T2") lateStream
+          [lateR, lateS] (lateT₁ ++ [.calculate none]) with
+        | .ok H => (dlookup "RSI_2" H.indicators).isSome | .error _ => false) = true ∧
+      (match runHexital { tf := some 120, fill := true && (some (120 : Int)).isSome } (some "T2") lateStream
+          [lateS] (lateT₂ ++ [.calculate none]) with
+        | .ok H => (dlookup "RSI_2" H.indicators).isSome | .error _ => false) = true := by
+    decide +kernel
+  obtain ⟨ok₁, ok₂, col, r₁, r₂⟩ := hchk
+  obtain ⟨H₁, h₁⟩ := exists_of_isOk ok₁
+  obtain ⟨H₂, h₂⟩ := exists_of_isOk ok₂
+  rw [h₁] at r₁ col
+  rw [h₂] at r₂
+  refine ⟨H₁, H₂, h₁, h₂, ?_, col⟩
+  refine presence_late_covered (some 120) (by intro t ht; cases ht; decide) true (some "T2") (some "T2") lateStream
+    [lateR, lateS] [lateS] lateR _ "RSI_2" 4 lateR_covered rfl rfl lateN lateN lateT₁ lateT₂ H₁ H₂ ?_ ?_
+    (treeOK_of_b (by decide +kernel)) (treeOK_of_b (by decide +kernel)) lateT₁_ok lateT₂_ok (by rfl)
+    ⟨by decide +kernel, by decide +kernel, by decide +kernel, by decide +kernel⟩ h₁ h₂
+    (Option.isSome_iff_exists.1 r₁) (Option.isSome_iff_exists.1 r₂) "RSI_2" (by decide +kernel)
+    (by decide +kernel) (by decide +kernel)
+  · intro m hm; rw [dedupe_RS] at hm; simp at hm
+    rcases hm with rfl | rfl
+    · exact Or.inl rfl
+    · exact Or.inr lateS_other
+  · intro m hm; rw [dedupe_S] at hm; simp at hm; subst hm; exact Or.inr lateS_other
+
+/-! ### the hypothesis "no lifespan" (any `MgrSpec`) cannot be dropped
+With `candles_lifespan` old candles are trimmed, and a member added after the trim is seeded on the shortened list:
+its readings DO depend on when it was added.  Same candles, same single member `EMA_2`, one minute apart, lifespan
+three minutes; world 1 has it from the start, world 2 adds it after the appends. -/
+def lateLife (k : Nat) : Candle Int :=
+  { lateCandle ([10, 12, 11, 15, 14, 13, 17, 12].getD k 0) with ts := some (60 * (k : Int)) }
+
+theorem late_add_lifespan_differs :
+    columnOf (runHexital { lifespan := some 180 } none [] [lateE]
+      ((List.range 8).map (fun k => TwinOp.append [lateLife k]) ++ [.calculate none])) "EMA_2"
+      = some [some 12, some 12, some 12, some 12] ∧
+    columnOf (runHexital { lifespan := some 180 } none [] []
+      ((List.range 8).map (fun k => TwinOp.append [lateLife k]) ++ [.add [lateE]] ++ [.calculate none])) "EMA_2"
+      = some [none, some 14, some 14, some 14] := by
+  decide +kernel
+
+end Examples
+/-! ### what differs from `C13.presence_FULL`, and what is left
+
+`presence_late` / `presence_late_covered` prove the conclusion of `presence_FULL` – and more: the two default managers
+store the same readings under every name of `a`'s tree, and the column is THE row-major run over the fed stream
+(`late_member_column`) – under these changes of the hypotheses:
+ * NEEDED, the statement is false without them (`presence_FULL_counterexample`, `late_add_lifespan_differs`):
+   - `calculate_index` is not aimed at `a` / at everything (`TwinOp.LateOK`); `presence_FULL` leaves all operations
+     other than `add` / `remove` unconstrained and unrelated between the two programs;
+   - members of the CONSTRUCTOR lists that carry `a`'s name are `a` (`hms₁`, `hms₂`: `m = a ∨ …`, as `presence_FULL`
+     demands of `add` only): a different tree registered under `a`'s name first leaves its readings on the candles;
+   - the configuration is one with an incremental manager spec (`MgrSpec`: base, timeframe, timeframe + fill) and the
+     stream is well formed for it (`M.Ok`: raw candles; stamped and sorted for a timeframe) – in particular no
+     `candles_lifespan`, under which a late member is seeded on the trimmed list;
+ * WEAKER than `presence_FULL` asks: the chunks need not be the same, only their concatenation; at the end `a` need
+   only be registered (that it is registered with its tree follows); the two Hexitals may differ in their timeframe name;
+ * RESTRICTIONS of this file: `a` has no timeframe of its own (`hatf`), and its tree has a row-major spec (`TreeSpec`;
+   all 27 shipped classes: `presence_late_covered`).
+LEFT OPEN – `a` with its own timeframe.  Then `a` lives on a manager of its own that is CREATED when the first member
+with that timeframe name is attached, from the default manager's candles at that moment (`memberRaw`: handed over raw –
+`recover_clean_values`, `reset_candle` – unless the member's timeframe is the Hexital's own).  Needed in addition:
+(i) the invariant must speak about two managers: "the manager under `a`'s key, once it exists, holds – up to `N` – a list
+resumable over `M'.spec (stream)`; until then the default manager holds – up to entries that `reset` wipes – the stream
+itself"; (ii) a lemma that creation commutes with feeding: `Manager.init cfg' (tasks cfg stream)` is `M'.spec stream`
+when `cfg = {}` (immediate from `MgrSpec.init`), and for a Hexital with its own timeframe / fill / HA a composition law
+"collapse of the collapsed = collapse" plus the effect of `recoverClean`/`reset` on converted candles (not available;
+the memory of defects lists HA + member timeframe as broken in the library); (iii) `hsecs` of `C13.presence` (members
+sharing the timeframe name share the timeframe).  The engine / locality part (`SelfStep`, `FeedStep`, `LateInv.step`) is
+already generic in the manager key's configuration and carries over unchanged. -/
+
 end Hex
+
+#print axioms Hex.late_member_column
+#print axioms Hex.presence_late
+#print axioms Hex.presence_late_covered
+#print axioms Hex.presence_FULL_counterexample
+#print axioms Hex.late_add_lifespan_differs
